@@ -50,7 +50,7 @@ EXPECTED_COUNTERS = ['op:create', 'op:launch', 'op:continue', 'op:execute', 'op:
                      'probe:reply_error', 'persister:none', 'persister:memory', 'persister:pickle', 'loader:custom',
                      'via:loopcomm', 'via:direct']
 PROGRAM_CFG = {'max_steps': 4, 'p_async': 0.6, 'max_awaits': 1, 'rets': ['value', 'stop', 'unsuccessful', 'raise', 'kill'],
-               'effects': ['out', 'status'], 'p_wait': 0.55, 'kwargs': True}
+               'effects': ['out', 'status'], 'p_wait': 0.55, 'kwargs': True, 'raw_kill': True}
 
 
 def systematic(tier):
@@ -327,7 +327,7 @@ def run(case):
                 if not waiting:
                     break
                 for proc in waiting:
-                    proc.resume(['rv', len(proc._trace)])
+                    programs.apply_trace_resume(proc)
             outcome = comm.unwrap(reply)
             new_instances = world.instances[instances_before:]
             new_labels = {programs.label(p) for p in new_instances}
